@@ -118,7 +118,7 @@ func checkC01(src string, withDir bool) core.Outcome {
 			if id := layoutKnown(src, out); id != "" {
 				return core.Outcome{Known: id, Desc: diffDesc(src, out)}
 			}
-			return core.Outcome{Key: "bytes:" + c01Class(src, out) + ":" + hunkShape(src, out), Desc: fmt.Sprintf("entry point %s: output differs from canonical input\n%s", e.name, diffDesc(src, out))}
+			return core.Outcome{Key: c01Key(src, out), Desc: fmt.Sprintf("entry point %s: output differs from canonical input\n%s", e.name, diffDesc(src, out))}
 		}
 	}
 	if withDir {
@@ -269,3 +269,11 @@ func stripWS(s string) string {
 
 var _ = dst.NewIdent
 var _ = bytes.NewBuffer
+
+func c01Key(want, got string) string {
+	c := c01Class(want, got)
+	if c == "tokens-differ" || c == "comments-differ" {
+		return "bytes:" + c
+	}
+	return "bytes:" + c + ":" + hunkShape(want, got)
+}
